@@ -169,6 +169,111 @@ def walk_isaligned(tr, f):
     return '\n\n'.join(res)
 
 
+def walk_typed(tr, f):
+    """template <typename T> T *alignedMalloc(size_t nElements, size_t align): the (bytes, align) it hands to the untyped one"""
+    n = f.node
+    params = [c for c in kids(n) if c['kind'] == 'ParmVarDecl']
+    if len(params) != 2 or any(tr.typeinfo(p.get('type', {})) != ('scalar', 'U64') for p in params):
+        raise Unsupported('typed alignedMalloc: expected (size_t, size_t)')
+    ctx = {'f': f, 'env': {params[0]['id']: 'v_nElements', params[1]['id']: 'v_align'}, 'this_fields': None}
+    body = [c for c in kids(n) if c['kind'] == 'CompoundStmt'][0]
+    ret = None
+    for s in kids(body):
+        if s['kind'] == 'DeclStmt':
+            for v in kids(s):
+                init = kids(v)
+                ti = tr.typeinfo(v.get('type', {}))
+                if v['kind'] != 'VarDecl' or not init or ti[0] != 'scalar' or 'const' not in v.get('type', {}).get('qualType', ''):
+                    raise Unsupported('local %s is not an initialised const scalar' % v.get('name'))
+                ctx['env'][v['id']] = tr.trans_expr_as(init[0], ti, ctx)
+        elif s['kind'] == 'ReturnStmt' and ret is None:
+            ret = kids(s)[0]
+        else:
+            raise Unsupported('statement of kind %s' % s['kind'])
+    if ret is None:
+        raise Unsupported('no return')
+    e = strip_all(tr, ret)
+    callee = strip_all(tr, kids(e)[0]) if e.get('kind') == 'CallExpr' else None
+    if callee is None or callee.get('kind') != 'DeclRefExpr' or (callee.get('referencedDecl') or {}).get('name') != 'alignedMalloc':
+        raise Unsupported('the returned value is not a call of alignedMalloc')
+    args = kids(e)[1:]
+    if len(args) != 2:
+        raise Unsupported('alignedMalloc call with %d arguments' % len(args))
+    out = []
+    for a in args:
+        if tr.strip(a).get('kind') == 'CXXDefaultArgExpr':
+            raise Unsupported('an argument of the inner alignedMalloc call is left to its default (not forwarded)')
+        t, ti = tr.trans_expr(a, ctx)
+        if ti != ('scalar', 'U64'):
+            raise Unsupported('argument type')
+        out.append(t)
+    return ('Definition %s_request (I : interp) (v_nElements : S I) (v_align : S I) : S I * S I :=\n  (%s, %s).'
+            % (f.coq, out[0], out[1]))
+
+
+def ptr_aliases(tr, stmts, pid):
+    """locals that are just the pointer p through casts; returns (alias ids, remaining statements)"""
+    al, rest = {pid}, []
+    for s in stmts:
+        if s['kind'] == 'DeclStmt' and all(v['kind'] == 'VarDecl' and kids(v) and '*' in v.get('type', {}).get('qualType', '')
+                                            and any(refers(tr, kids(v)[0], a) for a in al) for v in kids(s)):
+            for v in kids(s):
+                al.add(v['id'])
+        else:
+            rest.append(s)
+    return al, rest
+
+
+def walk_construct(tr, f):
+    """construct(T *const p, const T &t): nothing but  new ((void * )p) T(t)"""
+    n = f.node
+    params = [c for c in kids(n) if c['kind'] == 'ParmVarDecl']
+    if len(params) != 2:
+        raise Unsupported('construct: expected (T *const, const T &)')
+    body = [c for c in kids(n) if c['kind'] == 'CompoundStmt'][0]
+    al, rest = ptr_aliases(tr, kids(body), params[0]['id'])
+    out = []
+    for s in rest:
+        e = tr.strip(s)
+        ok = False
+        if e.get('kind') == 'CXXNewExpr':
+            ks = kids(e)
+            place = [k for k in ks if any(refers(tr, k, a) for a in al)]
+            init = [k for k in ks if k not in place]
+            if len(place) == 1 and len(init) == 1:
+                i = tr.strip(init[0])
+                if i.get('kind') == 'CXXConstructExpr':
+                    args = kids(i)
+                    ok = len(args) == 1 and refers(tr, args[0], params[1]['id']) and \
+                        i.get('ctorType', {}).get('qualType', '').count('const') >= 1
+                else:
+                    ok = refers(tr, i, params[1]['id'])           # scalar T: T(t) is a copy of the value
+        out.append('CPlacementCopy' if ok else 'COther')
+    return 'Definition %s_shape : list cstmt :=\n  [ %s ].' % (f.coq, '; '.join(out))
+
+
+def walk_destroy(tr, f):
+    """destroy(T *const p): nothing but  p->~T()"""
+    n = f.node
+    params = [c for c in kids(n) if c['kind'] == 'ParmVarDecl']
+    if len(params) != 1:
+        raise Unsupported('destroy: expected (T *const)')
+    body = [c for c in kids(n) if c['kind'] == 'CompoundStmt'][0]
+    al, rest = ptr_aliases(tr, kids(body), params[0]['id'])
+    out = []
+    for s in rest:
+        e = tr.strip(s)
+        ok = False
+        if e.get('kind') == 'CXXMemberCallExpr':
+            m = tr.strip(kids(e)[0])
+            ok = m.get('kind') == 'MemberExpr' and m.get('name', '').startswith('~') and m.get('isArrow') and \
+                any(refers(tr, kids(m)[0], a) for a in al) and len(kids(e)) == 1
+        elif e.get('kind') == 'CXXPseudoDestructorExpr' or (e.get('kind') == 'CallExpr' and tr.strip(kids(e)[0]).get('kind') == 'CXXPseudoDestructorExpr'):
+            ok = True
+        out.append('CDestroyInPlace' if ok else 'COther')
+    return 'Definition %s_shape : list cstmt :=\n  [ %s ].' % (f.coq, '; '.join(out))
+
+
 def main():
     ap = argparse.ArgumentParser()
     ap.add_argument('out')
@@ -192,6 +297,14 @@ def main():
             walker = walk_allocate
         elif f.name == 'isAligned':
             walker = walk_isaligned
+        elif f.name == 'alignedMalloc' and len([c for c in kids(f.node) if c['kind'] == 'ParmVarDecl']) == 2 \
+                and '*' in f.node.get('type', {}).get('qualType', '').split('(')[0] \
+                and 'void *' not in f.node.get('type', {}).get('qualType', '').split('(')[0]:
+            walker = walk_typed
+        elif f.name == 'construct' and f.rec is not None:
+            walker = walk_construct
+        elif f.name == 'destroy' and f.rec is not None:
+            walker = walk_destroy
         if walker is None or not [c for c in kids(f.node) if c['kind'] == 'CompoundStmt']:
             continue
         try:
